@@ -70,6 +70,11 @@ type Entry struct {
 	SerialNumber        *big.Int
 	SubjectAndPublicKey *SubjectAndPublicKey
 	LastModified        time.Time
+
+	// RawIssuer is the DER encoding of Issuer as carried by the issuerName
+	// field. OneCRL identifies an issuer by these bytes; Check compares them
+	// when they are present.
+	RawIssuer []byte `json:"-"`
 }
 
 // SubjectAndPublicKey specifies a revocation entry by Subject and PubKeyHash
@@ -146,6 +151,7 @@ func (entry *Entry) UnmarshalJSON(b []byte) error {
 	var err error
 	var subjectAndPublicKey *SubjectAndPublicKey
 	var issuer *pkix.Name
+	var rawIssuer []byte
 	var serialNumber *big.Int
 
 	if aux.Subject != "" && aux.PubKeyHash != "" {
@@ -166,7 +172,7 @@ func (entry *Entry) UnmarshalJSON(b []byte) error {
 	} else {
 		serialNumberBytes, _ := base64.StdEncoding.DecodeString(aux.SerialNumber)
 		serialNumber = new(big.Int).SetBytes(serialNumberBytes)
-		issuer, _, err = decodePkixName(aux.IssuerName)
+		issuer, rawIssuer, err = decodePkixName(aux.IssuerName)
 		if err != nil {
 			return fmt.Errorf("failed to unbase64 IssuerName: %v", err)
 		}
@@ -184,6 +190,7 @@ func (entry *Entry) UnmarshalJSON(b []byte) error {
 		},
 		Enabled:             aux.Enabled,
 		Issuer:              issuer,
+		RawIssuer:           rawIssuer,
 		SerialNumber:        serialNumber,
 		SubjectAndPublicKey: subjectAndPublicKey,
 		LastModified:        lastModified,
@@ -281,6 +288,12 @@ func (c *OneCRL) Check(cert *x509.Certificate) *Entry {
 		return nil
 	}
 	for _, entry := range issuersRevokedCerts.Entries {
+		// The list was found by the rendering of the issuer name, which is the
+		// same for names that differ only in their DER (e.g. string types):
+		// such a name is another issuer.
+		if entry.RawIssuer != nil && !bytes.Equal(entry.RawIssuer, cert.RawIssuer) {
+			continue
+		}
 		if entry.SerialNumber.Cmp(cert.SerialNumber) == 0 {
 			return entry
 		} // cert not found if for loop completes
